@@ -1,4 +1,4 @@
-import NomtModel.Store.GenFnCheck
+import NomtModel.Store.GenFnCheck3
 /-!
 # C05 (topic: translated function — the meta byte of a full bucket, `bitbox/meta_map.rs`)
 -/
@@ -11,5 +11,48 @@ theorem T5_fn_full_entry (hash : Nat) :
     GenFn.full_entry hash = some (Wal.fullEntry hash).toNat := GenFnCheck.full_entry_eq hash
 
 example : GenFn.full_entry (2 ^ 63) = some 0xC0 ∧ GenFn.full_entry 0 = some 0x80 ∧ GenFn.full_entry (2 ^ 57) = some 0x81 := by decide
+
+/-- T5.fn-2 the meta map of the CURRENT source as functions of the meta byte: `hint_empty` ⇔ byte `0`, `hint_tombstone` ⇔ byte `127`,
+`hint_not_match` ⇔ the byte differs from `full_entry(hash)`; `set_full` / `set_tombstone` store exactly these bytes; an index outside
+`bitvec` panics -/
+theorem T5_fn_meta_map (bv : List Nat) (b hash : Nat) :
+    GenFn.meta_hint_empty bv b = (bv[b]?).map (fun m => decide (m = 0)) ∧
+    GenFn.meta_hint_tombstone bv b = (bv[b]?).map (fun m => decide (m = 127)) ∧
+    GenFn.meta_hint_not_match bv b hash = (bv[b]?).map (fun m => decide (m ≠ (Wal.fullEntry hash).toNat)) ∧
+    GenFn.meta_set_full bv b hash = (if b < bv.length then some (bv.set b (Wal.fullEntry hash).toNat) else none) ∧
+    GenFn.meta_set_tombstone bv b = (if b < bv.length then some (bv.set b 127) else none) ∧
+    GenFn.meta_len bv.length = some bv.length ∧ GenFn.meta_page_index b = some (b / 4096) :=
+  ⟨(GenFnCheck.meta_hints_eq bv b hash).1, (GenFnCheck.meta_hints_eq bv b hash).2.1, (GenFnCheck.meta_hints_eq bv b hash).2.2,
+   (GenFnCheck.meta_set_eq bv b hash).1, (GenFnCheck.meta_set_eq bv b hash).2, rfl, GenFnCheck.meta_page_index_eq b⟩
+
+/-- T5.fn-3 `ProbeSequence::next` of the CURRENT source (a `loop`, translated as recursion on explicit fuel) is the mirror `PS.next` of
+`Store/ProbeModel.lean` — triangular step `bucket += step; step += 1; bucket %= n`, the `step > 2n` bound, the three hints in the
+source's order — for EVERY fuel, on every table of `0 < n < 2^62` valid meta bytes, and it never panics there -/
+theorem T5_fn_probe_next (bv : List Nat) (hv : ∀ b ∈ bv, b = 0 ∨ b = 127 ∨ (128 ≤ b ∧ b < 256)) (hn : 0 < bv.length)
+    (hlen : bv.length < 2 ^ 62) (hash : Nat) (hh : hash < 2 ^ 64) (fuel bucket step : Nat) (hb : bucket < 2 ^ 63)
+    (hs : step ≤ 2 * bv.length + 1) :
+    GenFn.probe_next fuel hash bucket step bv.length bv =
+      (Store.Probe.PS.next (bv.map GenFnCheck.slotOfByte) fuel ⟨hash, bucket, step⟩).map
+        (fun r => some (GenFnCheck.prGen r.1, r.2.bucket, r.2.step)) :=
+  GenFnCheck.probe_next_eq bv hv hn hlen hash hh fuel bucket step hb hs
+
+/-- T5.fn-4 fuel is not the answer: from a state of the probe sequence of `hash`, more than `2n + 1 - step` units of fuel make the
+translated `next` return a result (neither out of fuel nor a panic) -/
+theorem T5_fn_probe_next_total (bv : List Nat) (hv : ∀ b ∈ bv, b = 0 ∨ b = 127 ∨ (128 ≤ b ∧ b < 256)) (hn : 0 < bv.length)
+    (hlen : bv.length < 2 ^ 62) (hash : Nat) (hh : hash < 2 ^ 64) (fuel : Nat) (s : Store.Probe.PS)
+    (hok : Store.Probe.PS.Ok hash bv.length s) (hb : s.bucket < 2 ^ 63) (hs : s.step ≤ 2 * bv.length + 1)
+    (hf : 2 * bv.length + 1 - s.step < fuel) :
+    ∃ r, GenFn.probe_next fuel hash s.bucket s.step bv.length bv = some (some r) :=
+  GenFnCheck.probe_next_fuel bv hv hn hlen hash hh fuel s hok hb hs hf
+
+/-- T5.fn-5 `HTOffsets::data_page_index` / `meta_bytes_index`: bucket pages follow the meta-byte pages -/
+theorem T5_fn_ht_offsets (off ix : Nat) (h : off + ix < 2 ^ 64) :
+    GenFn.ht_data_page_index off ix = some (off + ix) ∧ GenFn.ht_meta_bytes_index ix = some ix := GenFnCheck.ht_offsets_eq off ix h
+
+example : GenFn.probe_next 10 (2 ^ 57 * 5) 1 0 4 [0x85 - 1, 0x84, 127, 0] = some (some (.Tombstone 2, 2, 2)) ∧
+    GenFn.probe_next 10 (2 ^ 57 * 5) 1 0 4 [0x85 - 1, 0x85, 127, 0] = some (some (.PossibleHit 1, 1, 1)) ∧
+    GenFn.probe_next 20 (2 ^ 57 * 5) 1 0 2 [0x84, 0x84] = some (some (.Exhausted, 1, 5)) ∧
+    GenFn.probe_next 3 (2 ^ 57 * 5) 1 0 2 [0x84, 0x84] = none ∧
+    GenFn.probe_next 3 0 1 0 0 [] = some none ∧ GenFn.meta_hint_empty [0, 127] 2 = none := by decide
 
 end Nomt.C05
